@@ -242,7 +242,7 @@ class Run:
         if restricted and status == "refuted":
             # a counter-model of the restricted context is not a counterexample of the program
             status, model, reason = "unknown", None, "not provable from the given facts alone"
-        if status != "discharged" and finding is not None and finding in self.known_findings and unless is not None:
+        if status != "discharged" and finding is not None and all(f in self.known_findings for f in finding.split("+")) and unless is not None:
             # known-finding protocol (DESIGN §3.9): re-verify with the witness class excluded
             st2, model2, reason2 = self._prove(z3.Or(to_z3(unless), goal_z))
             if restricted and st2 == "refuted":
